@@ -39,6 +39,9 @@ pub enum Prior {
     WrongLabel,
     /// an honest run of another program (other size, other phase structure)
     HonestOther,
+    /// an honest run of a commitment-free program with the given number of gates (so that every
+    /// subject is preceded by a run of its own padded size under different challenges)
+    HonestSize(usize),
     /// a verifier built and dropped without verifying (pending closures never run)
     AbandonedVerifier,
     /// a prover built and dropped without proving
@@ -61,6 +64,7 @@ impl Prior {
             Prior::IdentityCommitment => "verify(identity commitment)".into(),
             Prior::WrongLabel => "verify(other label)".into(),
             Prior::HonestOther => "honest run of another program".into(),
+            Prior::HonestSize(n) => format!("honest run with {} gates", n),
             Prior::AbandonedVerifier => "verifier dropped before verify".into(),
             Prior::AbandonedProver => "prover dropped before prove".into(),
         }
@@ -85,6 +89,10 @@ pub fn alphabet() -> Vec<Prior> {
         Prior::IdentityCommitment,
         Prior::WrongLabel,
         Prior::HonestOther,
+        Prior::HonestSize(1),
+        Prior::HonestSize(2),
+        Prior::HonestSize(3),
+        Prior::HonestSize(5),
         Prior::AbandonedVerifier,
         Prior::AbandonedProver,
     ]);
@@ -204,6 +212,19 @@ pub fn play<G: Cv>(env: &Env<G>, b: &PriorBase<G>, p: &Prior, seed: u64) -> Resu
                 let pr = program::prove::<G>(&o, &env.pc, &env.bp, seed, "history-other", Dev::None);
                 if let Some(obj) = pr.obj {
                     let _ = program::verify::<G>(&o, &env.pc, &env.bp, seed, Dev::None, &pr.commitments, &obj, program::LABEL);
+                }
+            }
+            Prior::HonestSize(n) => {
+                let o = match n {
+                    1 => "M Ka",
+                    2 => "M M Ka",
+                    3 => "M M R[M Ka]",
+                    _ => "M M M R[M M Ka]",
+                };
+                let o = Program::parse(o).expect("size program");
+                let pr = program::prove::<G>(&o, &env.pc, &env.bp, seed ^ 0x55, "history-size", Dev::None);
+                if let Some(obj) = pr.obj {
+                    let _ = program::verify::<G>(&o, &env.pc, &env.bp, seed ^ 0x55, Dev::None, &pr.commitments, &obj, program::LABEL);
                 }
             }
             Prior::AbandonedVerifier => {
